@@ -32,9 +32,9 @@ def gen(r, cls):
                 v = v * 0  # boundary: zero duration
         else:
             v = _neg_entry(r, shape)
-        d.update(kind=kind, value=v.tolist() if shape else float(v))
-    elif cls == "time":  # G / C
-        kind = ["G", "C"][r.integers(2)]
+        d.update(kind=kind, value=v.tolist() if shape else float(v), via_copy=bool(r.random() < 0.3))
+    elif cls == "time":  # G / C (a time that becomes a shift), E / P / X / D (a time that becomes a decay)
+        kind = ["G", "C", "E", "P", "X", "D"][r.integers(6)]
         shape = _rshape(r, 2)
         v = r.uniform(0.1, 5, size=shape) if valid else _neg_entry(r, shape)
         if valid and shape and r.random() < 0.4:
@@ -230,12 +230,18 @@ def run_real(d, epg):
             if cls == "duration":
                 v = np.asarray(d["value"]) if not np.isscalar(d["value"]) else d["value"]
                 k = d["kind"]
-                op = {"T": lambda: epg.T(30, 0, duration=v), "E": lambda: epg.E(5, 100, 10, duration=v),
+                if d.get("via_copy"):  # the same guard through Operator.copy(duration=...)
+                    op = epg.T(30, 0, duration=1.0).copy(duration=v)
+                    if not np.array_equal(np.asarray(op.duration), np.asarray(v)):
+                        raise AssertionError(f"copy(duration={v!r}) kept duration {op.duration!r}")
+                else:
+                  op = {"T": lambda: epg.T(30, 0, duration=v), "E": lambda: epg.E(5, 100, 10, duration=v),
                       "S": lambda: epg.S(1, duration=v), "Wait": lambda: epg.Wait(v), "Phi": lambda: epg.Phi(10, duration=v),
                       "P": lambda: epg.P(3, 0.1, duration=v), "R": lambda: epg.R(0.1, 0.01, duration=v)}[k]()
             elif cls == "time":
                 v = np.asarray(d["value"]) if not np.isscalar(d["value"]) else d["value"]
-                op = epg.G(v, 5.0) if d["kind"] == "G" else epg.C(v)
+                op = {"G": lambda: epg.G(v, 5.0), "C": lambda: epg.C(v), "E": lambda: epg.E(v, 100.0, 10.0),
+                      "P": lambda: epg.P(v, 0.1), "X": lambda: epg.X(v, 0.1, axis=np.ndim(v)), "D": lambda: epg.D(v, 1.0)}[d["kind"]]()
                 if np.any(np.asarray(v) != 0):
                     pass
             elif cls == "zero_shift":
